@@ -183,6 +183,76 @@ func TestEnumTokens(t *testing.T) {
 	side.Set("max_tokens", L)
 }
 
+// strAlphabet: what matters inside a string literal - the escape introducer,
+// the u of \u escapes, hex digits in both cases, non-hex letters on both sides
+// of the hex range, the short escapes, control bytes (among them 0x10-0x19,
+// which a careless case fold maps onto digits), DEL, and UTF-8 fragments.
+var strAlphabet = []byte("\\u\"09aFgG/nx\x10\x19\x1f\x7f\x80\xc3")
+
+func TestEnumStrings(t *testing.T) {
+	L := tierLen(5, 6)
+	side := ev.NewSide("C16", "enum-strings", fmt.Sprintf("EXHAUSTIVE: every string literal body of length <= %d over the 18 bytes \\ u \" 0 9 a F g G / n x 0x10 0x19 0x1f 0x7f 0x80 0xc3, placed between quotes as a root value and as the member name of {\"...\":0} (sharded by first byte); same oracle as enum-bytes; non-trivial = accepted texts and rejected ones with a body of >= 2 bytes; distinct by construction", L))
+	defer side.Flush()
+	k, n := ev.Shard()
+	var total, accepted, nt int64
+	body := make([]byte, 0, L)
+	text := make([]byte, 0, L+8)
+	try := func() {
+		for variant := 0; variant < 2; variant++ {
+			text = append(text[:0], '"')
+			if variant == 1 {
+				text = append(text[:0], '{', '"')
+			}
+			text = append(text, body...)
+			text = append(text, '"')
+			if variant == 1 {
+				text = append(text, ':', '0', '}')
+			}
+			want := ref.Valid(text)
+			total++
+			if want {
+				accepted++
+				nt++
+				if accepted%9973 == 1 {
+					side.Sample(map[string]string{"accepted": string(text)})
+				}
+			} else if len(body) >= 2 {
+				nt++
+			}
+			if msg := codecVerdicts(text, want); msg != "" {
+				side.Fail(t, TextCase{Text: append([]byte{}, text...)}, msg)
+			}
+		}
+	}
+	var rec func(d int)
+	rec = func(d int) {
+		try()
+		if d == L {
+			return
+		}
+		for _, c := range strAlphabet {
+			body = append(body, c)
+			rec(d + 1)
+			body = body[:len(body)-1]
+		}
+	}
+	if k == 0 {
+		body = body[:0]
+		try()
+	}
+	for i, c := range strAlphabet {
+		if i%n != k {
+			continue
+		}
+		body = append(body[:0], c)
+		rec(1)
+	}
+	side.Count(total, nt, "enumerated")
+	side.Set("accepted", accepted)
+	side.Set("exhaustive", true)
+	side.Set("max_body_len", L)
+}
+
 // TestDepthLimit: nesting of exactly 9 999 / 10 000 / 10 001 levels, every kind.
 func TestDepthLimit(t *testing.T) {
 	side := ev.NewSide("C16", "depth-limit", "enumerated: arrays, objects and alternating nesting of exactly 9 999, 10 000 and 10 001 levels (and 10 000 levels plus surrounding whitespace); same oracle as the enumeration; every case non-trivial")
@@ -244,6 +314,10 @@ func drawText(t *rapid.T) TextCase {
 		case 5:
 			b[i] = rapid.Byte().Draw(t, "rb")
 		}
+		if gen.OneIn(t, 4, "lex") {
+			// instead: one scalar token somewhere inside the structure replaced by an almost-JSON token
+			b = gen.LexDamage(t, []byte(gen.Spell(t, v, "lsp")), "lx")
+		}
 		return TextCase{Text: b}
 	}
 }
@@ -293,6 +367,9 @@ func damage(t *rapid.T, b []byte, l string) []byte {
 		b = append(b, rapid.SampledFrom([]string{"x", "]", "}", ",", " 1", "\"", "\x00", "\v"}).Draw(t, l+"tr")...)
 	case 4:
 		b = append([]byte(rapid.SampledFrom([]string{"\ufeff", "\v", "\f", "\u00a0", "x", "+"}).Draw(t, l+"lead")), b...)
+	}
+	if gen.OneIn(t, 3, l+"lex") {
+		b = gen.LexDamage(t, b, l+"lx")
 	}
 	return b
 }
